@@ -6,7 +6,7 @@ import (
 )
 
 //verif:witness H_C20_writethrough end
-//verif:bound C20 all sync logger -> file / rolling-file / console appender, and the rolling-file logger in synchronous mode (3 buffer-full policies, which must not matter), text and JSON layout, with and without a logger-level layout; 1..3 acknowledged calls; the target's content is inspected immediately after each call returns (every crash point between acknowledged calls)
+//verif:bound C20 all sync logger -> file / rolling-file / console appender, and the rolling-file logger in synchronous mode (3 buffer-full policies, which must not matter), text and JSON layout, with and without a logger-level layout; 1..3 acknowledged calls at TRACE / DEBUG / INFO / ERROR level (every combination); the target's content is inspected immediately after each call returns (every crash point between acknowledged calls)
 //verif:assume C20 os.File.Write hands its bytes to the kernel before returning (no user-space buffering in os.File: standard-library contract); what the kernel does afterwards is not modelled
 //verif:assume C20 goroutine interleavings of several writers are covered by C03; here calls are issued one at a time
 //verif:engine-only H_C20_writethrough
@@ -63,8 +63,10 @@ func H_C20_writethrough() {
 	}
 	n := 1 + vChoose("calls", 3)
 	markers := [3]string{"first-line", "second-line", "third-line"}
+	levels := [4]Level{TraceLevel, DebugLevel, InfoLevel, ErrorLevel}
 	for i := 0; i < n; i++ {
-		Info(context.Background(), tag, Msg(markers[i]))
+		// every level is acknowledged alike: diagnostic lines are not held back either
+		Record(context.Background(), levels[vChoose("level", 4)], tag, 1, Msg(markers[i]))
 		// crash point: the call has returned; what is in the target now?
 		var content []byte
 		switch kind {
@@ -102,7 +104,7 @@ func H_C20_writethrough() {
 }
 
 //verif:witness H_C20_concurrent end
-//verif:bound C20 all concurrent callers: 3 goroutines x 1 call through one sync logger to a console (slow stream) or file appender, pre-emption at every visible operation (atomics, mutexes, file writes, yields) with at most 2 (thorough: 4) pre-emptive switches; immediately after each call returns, its complete line must already be in the target
+//verif:bound C20 all concurrent callers: 3 goroutines x 1 call through one sync logger to a console (slow stream), file or rolling-file appender, pre-emption at every visible operation (atomics, mutexes, file writes, yields) with at most 2 (thorough: 4) pre-emptive switches; immediately after each call returns, its complete line must already be in the target
 //verif:engine-only H_C20_concurrent
 
 // H_C20_concurrent: acknowledged means written, also when calls overlap.
@@ -126,12 +128,15 @@ func H_C20_concurrent() {
 	saved := Stdout
 	defer func() { Stdout = saved }()
 	var app Appender
-	kind := vChoose("appender", 2)
-	if kind == 0 {
+	kind := vChoose("appender", 3)
+	switch kind {
+	case 0:
 		Stdout = sink
 		app = &ConsoleAppender{Layout: lay}
-	} else {
+	case 1:
 		app = &FileAppender{Layout: lay, FileDir: dir, FileName: "f.log"}
+	default:
+		app = &RollingFileAppender{Layout: lay, FileDir: dir, FileName: "r", Rotation: TimeRotation{Interval: time.Hour}, MaxAge: 168}
 	}
 	if err := app.Start(); err != nil {
 		panic(err)
@@ -146,6 +151,14 @@ func H_C20_concurrent() {
 			var c []byte
 			for _, w := range sink.writes {
 				c = append(c, w...)
+			}
+			return c
+		}
+		if kind == 2 {
+			var c []byte
+			for _, n := range vFSNames(dir) {
+				x, _ := vFSRead(dir, n)
+				c = append(c, x...)
 			}
 			return c
 		}
